@@ -175,7 +175,10 @@ class PricerStub:
         names, st = observable_state(self.model)
         val = S.generic_uf(f"price_{type(self.model).__name__}", *st)
         PricerStub.calls.append((self.model, val))
-        return val
+        # the real pricer returns one value per strike: an array of shape (1,) for a scalar strike, (k,) for k strikes
+        out = np.empty(max(1, np.size(product.payoff.strike)), dtype=object)
+        out.fill(val)
+        return out
 
 
 def replay_calibration(sc):
@@ -187,6 +190,8 @@ def replay_calibration(sc):
         cal = MU.run_default_calibration(model, maturity=1.0, bs_sigma=0.12)
     except ValueError as e:
         return False, f"no solution in the default interval: {e}"
+    except TypeError as e:
+        return True, f"{sc['model']}: run_default_calibration(model, maturity=1.0, bs_sigma=0.12) raises TypeError: {e}"
     from rpylib.numerical.cosmethod import COSPricer
     from rpylib.numerical.closedform.cfblackscholes import CFBlackScholes
 
@@ -212,15 +217,21 @@ def h_calibrate(ctx, mt_name):
     PricerStub.calls = []
     undo1 = shims.install(MU, COSPricer=PricerStub, scipy=_OptShim(BRENT))
     try:
+        type_error = None
         try:
             cal = MU.run_default_calibration(model, maturity=1.0, bs_sigma=0.12)
             raised = False
         except ValueError:
             raised = True
+        except TypeError as e:
+            type_error = e
     finally:
         undo1()
     rp = (replay_calibration, lambda m: {"model": mt_name})
     info = {"model": mt_name, "parameter": conf.parameter}
+    ctx.prove("C20.objective_handed_to_the_root_search_is_scalar_valued", type_error is None, info=dict(info, raised=str(type_error)), replay=rp)
+    if type_error is not None:
+        return
     ctx.prove("C20.input_model_untouched", all(before[k] == v if not V.is_sym(v) else False for k, v in vars(model.levy_model.parameters).items()), info=info, replay=rp)
     if raised:
         # legitimate only when the bracket does not straddle a root: the stub raises exactly then
